@@ -144,6 +144,26 @@ def install_shims() -> None:
 SOLVER = {'time': 0.0, 'queries': 0}
 
 
+def symbolic_signature(fn: Callable, fixed: Dict[str, Any]):
+    """Signature of the symbolic (non-fixed) parameters of a harness.  A
+    harness may carry ``params_for(fixed) -> {name: type}`` to declare a
+    parameter list that depends on the slice (e.g. n tokens)."""
+    import typing
+    if hasattr(fn, 'params_for'):
+        decl = fn.params_for(fixed)
+        return inspect.Signature([
+            inspect.Parameter(n, inspect.Parameter.POSITIONAL_OR_KEYWORD,
+                              annotation=t) for n, t in decl.items()])
+    full_sig = inspect.signature(fn)
+    hints = typing.get_type_hints(fn)
+    params = []
+    for name, p in full_sig.parameters.items():
+        if name in fixed:
+            continue
+        params.append(p.replace(annotation=hints[name]))
+    return inspect.Signature(params)
+
+
 def explore(
     fn: Callable,
     fixed: Optional[Dict[str, Any]] = None,
@@ -179,15 +199,7 @@ def explore(
 
     install_shims()
     fixed = dict(fixed or {})
-    full_sig = inspect.signature(fn)
-    import typing
-    hints = typing.get_type_hints(fn)
-    params = []
-    for name, p in full_sig.parameters.items():
-        if name in fixed:
-            continue
-        params.append(p.replace(annotation=hints[name]))
-    sig = inspect.Signature(params)
+    sig = symbolic_signature(fn, fixed)
 
     def runner(bound):
         del _MARKS[:]
